@@ -97,9 +97,12 @@ def rule_alias_sole(ctx):
 def rule_typename_same_type(ctx):
     """__typename found inside a spread fragment only counts when the fragment is on the very same type"""
     obs = []
-    fns = [f for f in ctx.crate('codegen').all_fns() if 'query::validation::selection_set_contains_type_name' in norm_path(f.path) and not f.from_macro]
+    # the recursive __typename search: a self-recursive function of the validation module that matches on
+    # `Selection::Typename` (found by what it does; the name is not relied upon)
     cg = callgraph(ctx)
-    rec = [f for f in fns if f.key in cg.edges.get(f.key, ())]
+    fns = [f for f in ctx.crate('codegen').all_fns() if norm_path(f.path).startswith('graphql_client_codegen::query::validation') and not f.from_macro]
+    rec = [f for f in fns if f.key in cg.edges.get(f.key, ()) and
+           any(any('Selection::Typename' in repr(P.pat_summary(a['pat'])) for a in m_['arms']) for m_ in f.walk(lambda x: x['k'] == 'match'))]
     if not rec:
         return [bad('TYPENAME-SAME-TYPE', 'floor', 'anchor-missing: recursive __typename search not found')]
     f = rec[0]
@@ -269,7 +272,18 @@ def rule_traversals(ctx):
             for m in fn.walk(lambda x: x['k'] == 'match'):
                 if 'selection::Selection' not in m['scrut'].get('ty', '') or 'SelectionParent' in m['scrut'].get('ty', ''):
                     continue
-                if not any(id(rc) in {id(x) for x in walk(m)} for rc in rec_calls):
+                in_match = any(id(rc) in {id(x) for x in walk(m)} for rc in rec_calls)
+                # ... or the match only selects what to descend into and the recursion follows it (`let next = match s {..};
+                # next.iter().any(|x| rec(x))`)
+                follows = False
+                ch_ = H.stmt_chain(fn, m)
+                if ch_:
+                    blk_, idx_ = ch_[-1]
+                    tail_ = [blk_['expr']] if blk_.get('expr') is not None and idx_ < len(blk_['stmts']) else []
+                    for st_ in blk_['stmts'][idx_ + 1:] + tail_:
+                        if any(id(rc) in {id(x) for x in walk(st_)} for rc in rec_calls):
+                            follows = True
+                if not in_match and not follows:
                     continue
                 for kind in ('Field', 'InlineFragment'):
                     arm = None
@@ -290,7 +304,9 @@ def rule_traversals(ctx):
                         for st in blk['stmts'][idx + 1:] + tail:
                             if any(id(rc) in {id(x) for x in walk(st)} for rc in rec_calls):
                                 after = True
-                    if arm is not None and (any(id(rc) in inner for rc in rec_calls) or after):
+                    # recursion after the match only counts for arms that fall through to it
+                    leaves_early = arm is not None and (P.diverges(arm['body']) or arm['body'].get('k') == 'ret')
+                    if arm is not None and (any(id(rc) in inner for rc in rec_calls) or (after and not leaves_early)):
                         obs.append(ok('REACH-KINDS', inst, 'traversal descends into %s selections' % kind, m.get('sp', '')))
                     else:
                         obs.append(bad('REACH-KINDS', inst, 'the traversal does not descend into the sub-selection of %s selections' % kind, m.get('sp', ''),
@@ -549,4 +565,105 @@ def rule_rep_fresh(ctx):
                     obs.append(ok('REP-FRESH', inst, 'outer value read only (not accumulated across elements)', q.get('sp', '')))
     if n_sites < 1:
         obs.append(ok('REP-FRESH', 'none', 'no per-element template interpolates an outer collection', ''))
+    return obs
+
+
+def _iteration_scope(fn, node):
+    """innermost enclosing `for` body or iterator-method closure of node (the per-element scope), else None"""
+    for parent, role, child in fn.ancestors(node):
+        if parent.get('k') == 'for' and role == 'body':
+            return parent
+        if parent.get('k') == 'closure':
+            pr = fn.parent.get(id(parent))
+            while pr and pr[0] is not None and pr[0].get('k') in ('wrap', 'ref'):
+                pr = fn.parent.get(id(pr[0]))
+            if pr and pr[0] is not None and pr[0].get('k') == 'mcall' and pr[0]['method'] in H.ITER_CONSUMERS + ('any', 'all', 'find', 'position', 'filter', 'find_map'):
+                return parent
+            return None
+    return None
+
+
+@rule('SET-SCOPE')
+def rule_set_scope(ctx):
+    """a visited set that influences the yes/no answer of a search belongs to ONE search: it is not declared outside
+    the loop that runs the searches (a cycle guard reused across searches acts as a wrong memo: "already visited while
+    answering another question" is read as "no")"""
+    obs = []
+    from .rules_hir5 import pat_hids
+    n = 0
+
+    def set_args(call):
+        out = []
+        for a in ([call['recv']] if call['k'] == 'mcall' else []) + call['args']:
+            ty = a.get('ty', '') + a.get('aty', '')
+            if ('BTreeSet' in ty or 'HashSet' in ty) and '&mut' in ty.replace(' ', '&mut') or (('BTreeSet' in ty or 'HashSet' in ty) and a.get('k') == 'ref'):
+                out.append(a)
+        return out
+
+    def root_local(a):
+        r = a
+        while r.get('k') in ('ref', 'wrap', 'unary'):
+            r = r.get('e')
+        return r['res']['hid'] if r.get('k') == 'path' and r['res'].get('r') == 'local' else None
+
+    def shared_across(fn, call, hid, depth):
+        """is the set `hid` (a local of fn) declared outside the per-element scope that contains `call`?  follows the set
+        up through forwarding parameters (depth levels)."""
+        scope = _iteration_scope(fn, call)
+        srcs = fn.binds.get(hid, [])
+        is_param = any(s_[0] == 'param' for s_ in srcs)
+        if not is_param:
+            if scope is None:
+                return False
+            decl = None
+            for st in fn.walk(lambda x: x['k'] == 'let'):
+                if hid in pat_hids(st['pat']):
+                    decl = st
+            if decl is None:
+                return False
+            return id(decl) not in {id(x) for x in walk(scope)}
+        if scope is not None:
+            return True       # a set handed in from outside and used for every element of a loop
+        if depth <= 0:
+            return False
+        pidx = None
+        for i, p_ in enumerate(fn.params):
+            if hid in pat_hids(p_):
+                pidx = i
+        for cfn, cnode in ctx.pv.call_sites(fn):
+            args = ([cnode['recv']] if cnode['k'] == 'mcall' else []) + cnode['args']
+            if pidx is not None and pidx < len(args):
+                h2 = root_local(args[pidx])
+                if h2 is not None and shared_across(cfn, cnode, h2, depth - 1):
+                    return True
+        return False
+
+    for fn in ctx.crate('codegen').all_fns():
+        if fn.from_macro:
+            continue
+        for call in H.calls_in(fn):
+            lfs = [f for f in ctx.pv.local_fns(call.get('callee')) if not f.from_macro]
+            if not lfs or lfs[0].d.get('output', '') != 'bool':
+                continue
+            callee = lfs[0]
+            # the callee consults the set (contains / insert) to decide
+            if not any(x['k'] == 'mcall' and x['method'] in ('contains', 'insert') and any(s in (x['recv'].get('ty', '') + x['recv'].get('aty', '')) for s in ('BTreeSet', 'HashSet'))
+                       for _f, x in H.deep_nodes(ctx, callee, callee.body, 1)):
+                continue
+            for a in set_args(call):
+                hid = root_local(a)
+                if hid is None:
+                    continue
+                # calls inside the recursion itself (same SCC) pass the set on: only entries into the search count
+                if callee.key == fn.key:
+                    continue
+                n += 1
+                inst = '%s->%s' % (short(fn.path), short(callee.path))
+                if shared_across(fn, call, hid, 2):
+                    obs.append(bad('SET-SCOPE', inst, 'the set consulted by the search `%s` is declared outside the loop that runs the searches (or handed in from such a place): it is shared between searches' % short(callee.path),
+                                   call.get('sp', ''), 'a node visited while answering one question is skipped when answering the next: wrong "no" answers (missing __typename / missing Box)'))
+                else:
+                    obs.append(ok('SET-SCOPE', inst, 'the set lives for one search', call.get('sp', '')))
+    if n < 1:
+        obs.append(ok('SET-SCOPE', 'none', 'no boolean search takes a caller-provided set', ''))
     return obs
